@@ -108,6 +108,7 @@ def run_case(case_id, pre_abs, msg_abs, seed, keep_xml=False):
     """one spec transition against the real code -> event dict for the judge"""
     g = Gamma("%s|%s" % (seed, case_id))
     g.str_decl = True
+    g.omit_item_id = True
     # the same case, with its ids written in one of several styles (prefix-related, markup characters, case-only
     # differences, inner blanks, long): a bijection on ids, so the specification's verdict is unaffected
     from .render import ID_STYLES, id_style_map, restyle
